@@ -235,7 +235,10 @@ func component(cs Case) templ.Component {
 // errorHandler returns the configured error handler variant. Bodies use lower
 // case letters and punctuation only (disjoint from the document alphabet).
 func errorHandler(name string) func(r *http.Request, err error) http.Handler {
-	return errorHandlerText(name, func(err error) string { return err.Error() })
+	// The body must not echo err.Error(): the wording of the error the handler
+	// passes on is templ's business (it may wrap the cause); that it wraps the
+	// cause is checked separately with errors.Is on the recorded error.
+	return errorHandlerText(name, func(err error) string { return "render failed" })
 }
 
 // errorHandlerText: text(err) is what the variant echoes into its body.
